@@ -61,11 +61,14 @@ def any_deck(draw, tier='quick'):
         case = draw(c01.level0_case(tier))
         case['box'] = 6.0
     elif which == 'hier':
-        case = draw(gen_hier.hier_case(tier, {'lattice': True, 'empty_pieces': True}))
+        case = draw(gen_hier.hier_case(tier, {'lattice': True,
+                                              'empty_pieces': True,
+                                              'unsupported_mix': True}))
     elif which == 'lattice':
         case = draw(gen_hier.hier_case(tier, {'lattice': 'force',
                                               'max_depth': 2,
-                                              'empty_pieces': True}))
+                                              'empty_pieces': True,
+                                              'unsupported_mix': True}))
     elif which == 'prune':
         case = draw(gen_hier.prune_case(tier))
     elif which == 'twin':
